@@ -101,7 +101,7 @@ func c03(p *core.Program, r *core.Report) {
 
 	// ---------- byte order threading
 	const tO = "byte-order-threaded"
-	r.Rule(tO, "every argument of type binary.ByteOrder and every method invoke on one, in wkb/ewkb Read/Write and wkbcommon, is the function's byteOrder (its parameter, or in Read the value chosen from the first byte) - never a package constant", 40)
+	r.Rule(tO, "CONSTEVAL: each function of wkbcommon with a binary.ByteOrder parameter, wkb/ewkb Write and Marshal, and the hex Encode wrappers are evaluated with that parameter bound to binary.BigEndian and to binary.LittleEndian (wkb/ewkb Read: with the first decoded byte bound to 0 and 1), helpers evaluated as part of them; every operand of type ByteOrder that is reached - call argument or method receiver - is the bound order, never a package constant or the other order", 36)
 	byteOrderThreading(p, r, tO)
 
 	// ---------- errors, reader discipline (shared with C04)
@@ -361,47 +361,99 @@ func byteOrderThreading(p *core.Program, r *core.Report, rule string) {
 			fns = append(fns, fn)
 		}
 	}
-	for _, fn := range fns {
-		// the function's byte order: a parameter of that type, or (Read) a phi over loads of XDR/NDR globals
-		var own ssa.Value
-		for _, prm := range fn.Params {
-			if isByteOrderType(prm.Type()) {
-				own = prm
+	var bp *types.Package
+	if wp := p.Pkg("encoding/wkb"); wp != nil {
+		for _, imp := range wp.Types.Imports() {
+			if imp.Path() == "encoding/binary" {
+				bp = imp
 			}
 		}
-		if own == nil {
-			for _, b := range fn.Blocks {
-				for _, in := range b.Instrs {
-					if phi, ok := in.(*ssa.Phi); ok && isByteOrderType(phi.Type()) {
-						own = phi
-					}
-				}
+	}
+	if bp == nil || bp.Scope().Lookup("BigEndian") == nil || bp.Scope().Lookup("LittleEndian") == nil {
+		r.Lost(rule, "encoding/binary", "binary.BigEndian / LittleEndian not found")
+		return
+	}
+	orders := []struct {
+		name string
+		t    types.Type
+	}{{"BigEndian", bp.Scope().Lookup("BigEndian").Type()}, {"LittleEndian", bp.Scope().Lookup("LittleEndian").Type()}}
+	// operands of ByteOrder type reached in an evaluation, with their abstract values
+	operands := func(top *eng.CEResult) (vals []eng.CVal, where []string) {
+		eng.WalkReached(top, func(act *eng.CEResult, in ssa.Instruction) {
+			c, ok := in.(ssa.CallInstruction)
+			if !ok {
+				return
 			}
-		}
-		n := 0
-		for _, c := range eng.Calls(fn) {
 			cc := c.Common()
-			use := func(v ssa.Value, what string) {
-				n++
-				key := fmt.Sprintf("%s/%s#%d", short(fn), what, n)
-				if own != nil && v == own {
-					r.OK(rule, key, p.Pos(c.Pos()), false, "uses the function's own byte order")
-					return
-				}
-				r.Bad(rule, key, p.Pos(c.Pos()), "byte order operand "+describeVal(v)+" is not the function's byteOrder value; a fixed order makes the other byte order encode/decode wrongly")
-			}
 			if cc.IsInvoke() && isByteOrderType(cc.Value.Type()) {
-				use(cc.Value, "invoke-"+cc.Method.Name())
+				vals = append(vals, act.Of(cc.Value))
+				where = append(where, p.Pos(c.Pos()))
 			}
 			for _, a := range cc.Args {
 				if isByteOrderType(a.Type()) {
-					label := "dynamic"
-					if o := eng.CalleeObj(c); o != nil {
-						label = o.Name()
-					}
-					use(a, "arg-"+label)
+					vals = append(vals, act.Of(a))
+					where = append(where, p.Pos(c.Pos()))
 				}
 			}
+		})
+		return
+	}
+	override := func(fn *ssa.Function, v ssa.Value, args []eng.CVal) (eng.CVal, bool) {
+		if g, ok := eng.GlobalInit(v); ok {
+			return g, true
+		}
+		return eng.CVal{}, false
+	}
+	for _, fn := range fns {
+		boIdx := -1
+		for i, prm := range fn.Params {
+			if isByteOrderType(prm.Type()) {
+				boIdx = i
+			}
+		}
+		for _, o := range orders {
+			var top *eng.CEResult
+			ev := &eng.ConstEval{Inline: pureTableHelper, Override: override}
+			if boIdx >= 0 {
+				args := make([]eng.CVal, len(fn.Params))
+				for i := range args {
+					args[i] = eng.Top
+				}
+				args[boIdx] = eng.DynV(o.t)
+				top = ev.RunStable(fn, args)
+			} else {
+				// a reader: the order is chosen from the first decoded byte
+				first := eng.FirstCall(fn, func(c *ssa.Call) bool {
+					f := c.Call.StaticCallee()
+					return f != nil && f.Name() == "ReadByte" && core.FnPkgPath(f) == mod+"/encoding/wkbcommon"
+				}, 0)
+				if first == nil {
+					continue // no byte order of its own and none passed in (Marshal/Encode wrappers take a parameter)
+				}
+				marker := int64(0)
+				if o.name == "LittleEndian" {
+					marker = 1
+				}
+				ev.Override = func(f *ssa.Function, v ssa.Value, args []eng.CVal) (eng.CVal, bool) {
+					if v == ssa.Value(first) {
+						return eng.TupleV(eng.IntV(marker), eng.NilV()), true
+					}
+					return override(f, v, args)
+				}
+				top = ev.RunStable(fn, nil)
+			}
+			vals, where := operands(top)
+			if len(vals) == 0 {
+				continue
+			}
+			bad := ""
+			for i, v := range vals {
+				if v.K != eng.CType || !types.Identical(v.T, o.t) {
+					bad = fmt.Sprintf("with binary.%s selected, the byte order operand at %s is %s: a fixed or different order makes the other byte order encode/decode wrongly", o.name, where[i], v)
+					break
+				}
+			}
+			r.Check(bad == "", rule, fmt.Sprintf("%s/%s", short(fn), o.name), p.Pos(fn.Pos()), true, fmt.Sprintf("all %d byte order operands reached are binary.%s", len(vals), o.name), bad)
 		}
 	}
 }
@@ -817,7 +869,7 @@ func byteOrderEvalRule(p *core.Program, r *core.Report, rule string) {
 					}
 					args[boIdx] = cs.v
 					args[gIdx] = eng.DynV(geomPtrType(p, "Point"))
-					top := ev.Run(wfn, args)
+					top := ev.RunStable(wfn, args)
 					var bytesW []eng.CVal
 					words := 0
 					eng.WalkReached(top, func(act *eng.CEResult, in ssa.Instruction) {
@@ -877,7 +929,7 @@ func byteOrderEvalRule(p *core.Program, r *core.Report, rule string) {
 					}
 					return common(fn, v, args)
 				}
-				top := ev.Run(rfn, nil)
+				top := ev.RunStable(rfn, nil)
 				var orders []eng.CVal
 				eng.WalkReached(top, func(act *eng.CEResult, in ssa.Instruction) {
 					c, ok := in.(*ssa.Call)
